@@ -11,7 +11,7 @@ import Pyrtma.Model.ValidatorsExt
 namespace Pyrtma.Validators
 
 def CT.size : CT → Nat
-  | .int k => k.size | .flt k => k.size | .char => 1
+  | .int k => k.size | .flt k => k.size | .char => 1 | .chars n => n
 
 /-- the element kind a field offers its right-hand sides to -/
 def FTy.vk : FTy → VK
